@@ -21,7 +21,7 @@ MANIFEST = {
 }
 GEN = []
 MODELS = ["OptiVerif.Model.Fourier"]
-RULE = ("cases = (class, n_pol, length in {1,2,3,4,5,7,8,9,16,31,32,64,...}, dtype, noise?, domain, shift, gv(sps,R)); "
+RULE = ("cases = (class, n_pol, length in {1,2,3,4,5,7,8,9,16,31,32,64,...}, dtype, noise?, domain, shift, gv(sps,R), amplitude regime 1e-15..1e9, dark rows: an unlit polarisation / noise cancelling the signal / all-zero record); "
         "non-trivial = length>=2; distinct by (class,n_pol,len,noise,domain,shift,dtype,gv)")
 PARTIAL = ["numpy's FFT is trusted to compute the DFT (model = definition); rounding error is not covered by the theorems"]
 ASSUMPTIONS = ["numpy.fft.fft/ifft compute the DFT/inverse DFT of the last axis", "IEEE double arithmetic on both sides; libm sin/cos within 1 ulp"]
@@ -36,7 +36,9 @@ def gen_cases(rng, tier):
     lens = LENS_Q if tier == "quick" else LENS_T
     # every way of configuring the sampling grid: (sps,R), (sps,fs), (R,fs) with integer and NON-integer fs/R, fs alone
     gvs = [{"sps": 16, "R": 1e9}, {"sps": 8, "R": 10e9}, {"sps": 5, "R": 2.5e9}, {"sps": 8, "fs": 80e9}, {"R": 10e9, "fs": 40e9},
-           {"R": 10e9, "fs": 25e9}, {"R": 2.5e9, "fs": 64e9}, {"fs": 20e9}, {"fs": 12.5e9}]
+           {"R": 10e9, "fs": 25e9}, {"R": 2.5e9, "fs": 64e9}, {"fs": 20e9}, {"fs": 12.5e9},
+           # a slot count N in force (gv.t / gv.w / gv.dw exist for N*sps points) while the signal has another length
+           {"sps": 8, "R": 10e9, "N": 16}, {"sps": 16, "R": 1e9, "N": 4}, {"R": 10e9, "fs": 25e9, "N": 8}, {"sps": 4, "R": 1e9, "N": 2}]
     if tier != "quick":
         gvs += [{"sps": 33, "R": 1e6}, {"sps": 2, "R": 40e9}, {"sps": 64, "R": 1e9}, {"R": 3e9, "fs": 10e9}, {"sps": 7, "fs": 10e9}]
     for n in lens:
@@ -52,11 +54,15 @@ def gen_cases(rng, tier):
                         namp = rng.choice([0.25, 0.25, 1e-12, 1e-6])
                         g = rng.choice(gvs)
                         seed = rng.getrandbits(32)
+                        # dark rows: a polarisation whose field is identically zero (unlit y, or noise cancelling the signal), all-zero records
+                        zero = rng.choice([None, None, None, "x", "y", "cancel-x", "cancel-y"]) if npol == 2 else rng.choice([None] * 9 + ["all"])
+                        if zero and zero.startswith("cancel") and not noise:
+                            zero = zero[-1]
                         cases.append({"kind": "call", "cls": cls, "npol": npol, "n": n, "noise": noise, "dom": dom,
-                                      "shift": shift, "dtype": dtype, "gv": g, "seed": seed, "amp": amp, "namp": namp})
+                                      "shift": shift, "dtype": dtype, "gv": g, "seed": seed, "amp": amp, "namp": namp, "zero": zero})
     for n in lens:
         for shift in (False, True):
-            for g in ([rng.choice(gvs), rng.choice(gvs)] if tier == "quick" else gvs):
+            for g in ([rng.choice(gvs), rng.choice(gvs), rng.choice(gvs[-4:])] if tier == "quick" else gvs):
                 cases.append({"kind": "waxis", "n": n, "shift": shift, "gv": g, "cls": "e", "npol": 1, "noise": False,
                               "dtype": "real", "seed": 1, "dom": "-"})
     for dom in ("x", "T", "", "freq"):
@@ -81,6 +87,18 @@ def _data(case):
     nz = draw() * (case.get("namp", 0.25) * amp) if case["noise"] else None
     if nz is not None and case["dtype"] == "int":
         nz = r.integers(-3, 4, size=shape)
+    z = case.get("zero")
+    if z == "all":
+        s = s * 0
+        nz = None if nz is None else nz * 0
+    elif z in ("x", "y"):
+        s[0 if z == "x" else 1] = 0
+        if nz is not None:
+            nz[0 if z == "x" else 1] = 0
+    elif z in ("cancel-x", "cancel-y") and nz is not None:
+        k = 0 if z == "cancel-x" else 1
+        nz = nz.astype(np.result_type(nz, s))
+        nz[k] = -s[k]
     return s, nz
 
 
@@ -183,7 +201,7 @@ def compare(case, res, reqs, replies):
         if len(w) != len(ref):
             return [f"w axis length model {len(w)} impl {len(ref)}"]
         scale = max(1.0, max(abs(v) for v in ref))
-        bad = [i for i, (a, b) in enumerate(zip(w, ref)) if abs(a - b) > 1e-12 * scale]
+        bad = [i for i, (a, b) in enumerate(zip(w, ref)) if not (abs(a - b) <= 1e-12 * scale)]
         return [f"w axis differs at {bad[:3]}: model {w[bad[0]]!r} impl {ref[bad[0]]!r}"] if bad else []
     if not replies[0].startswith("ok "):
         return [f"model reply {replies[0][:80]}"]
@@ -205,14 +223,14 @@ def compare(case, res, reqs, replies):
                 return [f"{name} row {r}: length {len(mr)} vs {len(iv)}"]
             scale = max(1e-300, max(abs(z) for z in iv), max(abs(z) for z in mr))
             for k, (a, b) in enumerate(zip(mr, iv)):
-                if abs(a - b) > 1e-9 * scale * max(1, n):
+                if not (abs(a - b) <= 1e-9 * scale * max(1, n)):
                     return [f"{name} row {r} sample {k}: model {a!r} impl {b!r}"]
         return []
     out += cmp_rows("signal", msig, res["sig"])
     out += cmp_rows("noise", mnoise, res["noise"])
     if replies[1].startswith("ok "):
         p = Toks(replies[1][3:]).flist()
-        if len(p) != len(res["power"]) or any(abs(a - b) > 1e-9 * max(1e-300, abs(b)) for a, b in zip(p, res["power"])):
+        if len(p) != len(res["power"]) or any(not (abs(a - b) <= 1e-9 * max(1e-300, abs(b))) for a, b in zip(p, res["power"])):
             out.append(f"power: model {p} impl {res['power']}")
     else:
         out.append(f"power reply {replies[1][:60]}")
@@ -239,9 +257,9 @@ def oracle(case, res):
         if case["shift"]:
             ref = np.fft.fftshift(ref)
         w = np.array(res["w"])
-        if w.shape != ref.shape or np.max(np.abs(w - ref)) > eps * max(1.0, np.max(np.abs(ref))):
+        if w.shape != ref.shape or not (np.max(np.abs(w - ref)) <= eps * max(1.0, np.max(np.abs(ref)))):
             v.append(("C02:w-axis", f"w(shift={case['shift']}) for n={n}, fs={fs} differs from 2*pi*fftfreq*fs"))
-        if abs(res["fs"] - fs) > 1e-9 * fs:
+        if not (abs(res["fs"] - fs) <= 1e-9 * fs):
             v.append(("C02:fs", f"gv.fs={res['fs']} but the configured sampling rate is {fs}"))
         return v
     want_cls = "electrical_signal" if case["cls"] == "e" else "optical_signal"
@@ -263,7 +281,7 @@ def oracle(case, res):
         a, y = ref_tr(inp)
         o = np.array([[complex(p, q) for p, q in row] for row in outp])
         scale = max(1e-300, float(np.max(np.abs(a)))) * max(1, n)
-        if o.shape != y.shape or np.max(np.abs(o - y)) > eps * scale:
+        if o.shape != y.shape or not (np.max(np.abs(o - y)) <= eps * scale):
             v.append((f"C02:transform-{name}", f"{name} of x({case['dom']!r},{case['shift']}) differs from numpy reference (n={n})"))
         # Parseval per row
         if fwd:
@@ -272,21 +290,21 @@ def oracle(case, res):
         else:
             lhs = n * np.sum(np.abs(o) ** 2, axis=-1)
             rhs = np.sum(np.abs(a) ** 2, axis=-1)
-        if np.any(np.abs(lhs - rhs) > 1e-10 * np.maximum(1e-300, rhs) * max(1, n)):
+        if not np.all(np.abs(lhs - rhs) <= 1e-10 * np.maximum(1e-300, rhs) * max(1, n)):
             v.append((f"C02:parseval-{name}", f"Parseval fails for {name}, n={n}: {lhs} vs {rhs}"))
     scale = max(1e-300, max(abs(complex(p, q)) for row in res["in_sig"] for p, q in row)) * max(1, n)
     nscale = scale if res["in_noise"] is None else max(1e-300, max(abs(complex(p, q)) for row in res["in_noise"] for p, q in row)) * max(1, n)
-    if "roundtrip_err" in res and res["roundtrip_err"] > eps * scale:
+    if "roundtrip_err" in res and not (res["roundtrip_err"] <= eps * scale):
         v.append(("C02:roundtrip", f"x({case['dom']!r})(inverse) differs from x by {res['roundtrip_err']:.3e} (n={n})"))
-    if res.get("roundtrip_err_noise", 0) > eps * nscale:
+    if not (res.get("roundtrip_err_noise", 0) <= eps * nscale):
         v.append(("C02:roundtrip-noise", f"noise round trip error {res['roundtrip_err_noise']:.3e} (n={n})"))
-    if "unshift_err" in res and res["unshift_err"] > eps * scale:
+    if "unshift_err" in res and not (res["unshift_err"] <= eps * scale):
         v.append(("C02:unshift", f"opposite numpy shift does not recover the unshifted transform: {res['unshift_err']:.3e} (n={n}, dom={case['dom']})"))
     # power = mean |signal+noise|^2 per polarisation
     a = np.array([[complex(p, q) for p, q in row] for row in res["in_sig"]])
     tot = a if res["in_noise"] is None else a + np.array([[complex(p, q) for p, q in row] for row in res["in_noise"]])
     pw = np.mean(np.abs(tot) ** 2, axis=-1)
-    if len(res["power"]) != len(pw) or np.any(np.abs(np.array(res["power"]) - pw) > 1e-12 * np.maximum(1e-300, pw)):
+    if len(res["power"]) != len(pw) or not np.all(np.abs(np.array(res["power"]) - pw) <= 1e-12 * np.maximum(1e-300, pw)):
         v.append(("C02:power", f"power() {res['power']} != mean|signal+noise|^2 {pw.tolist()}"))
     return v
 
@@ -297,6 +315,8 @@ def features(case, res):
          "shift" if case["shift"] else "noshift", "dtype=" + case["dtype"]]
     if case["n"] % 2 and case["shift"]:
         f.append("odd-shifted")
+    if case.get("zero"):
+        f.append("dark=" + case["zero"])
     return f
 
 
